@@ -80,6 +80,19 @@ def _case(draw: Any, max_ops: int, max_first: int) -> dict[str, Any]:
             script += [["send", i] for i in lead] + [["settle"]]
         script.insert(draw(st.sampled_from([0, 0, len(script) // 3, len(script)])), ["start"])
         return {"route": route, "n": n, "first": first, "ops": script, "long_lag": lag}
+    if route != "3phase" and n >= 3 and draw(st.integers(0, 7)) == 0:
+        # streams that began long before each other, everything buffered (within the receivers' capacity of 50) before
+        # the consumer attaches: the first synchronisation has to skip tens of samples on several streams
+        starts = [0, 5, 10, 20, 30, 40, 45]
+        first = [draw(st.sampled_from(starts)) for _ in range(n)]
+        last = 46
+        script = []
+        for k in range(last + 1):
+            script += [["send", i] for i in range(n) if first[i] <= k]
+        script.append(["start"])
+        for _ in range(draw(st.integers(1, 3))):
+            script += [["send", i] for i in range(n)] + [["settle"]]
+        return {"route": route, "n": n, "first": first, "ops": script, "deep_backlog": True}
     ops: list[Any] = []
     for _ in range(draw(st.integers(5, max_ops))):
         kind = draw(st.sampled_from(["send"] * 8 + ["settle"] * 3 + ["late"]))
@@ -232,6 +245,10 @@ def run_case(case: Any, pid: str) -> Verdict:
         elif ticks and hi >= lo and not v.violations:
             if ticks[-1] != hi:
                 v.fail(f"late consumer's last tick {ticks[-1]} != last complete tick {hi}")
+    if case.get("deep_backlog"):
+        v.labels.add("consumer_attaches_to_deep_staggered_backlogs")
+        if sum(sorted(max(first) - f for f in set(first))) > 50:
+            v.labels.add("lags_of_lagging_groups_sum_over_50")
     if case.get("long_lag"):
         v.labels.add("three_phase_one_phase_lags_45_to_60_ticks")
         if case["long_lag"] > 51:
